@@ -1,12 +1,12 @@
 (** C09: small-scope sweep of the whole executable specification (a test, not
     the property): every signature with at most two parameters over an
-    8-name vocabulary x 7 default kinds x {default options, no auto short
+    8-name vocabulary x 8 default kinds (a float among them) x {default options, no auto short
     flags, first parameter iterable+optional}. *)
 From InvokeVerif Require Import Model.SigCtxModel Spec.C09Spec.
 
 Definition vocab : list string := ["a"; "b"; "ab"; "a_b"; "ab_c"; "_a"; "no_a"; "_"].
 Definition kinds : list pdefault :=
-  [DEmpty; DNone; DStr "x"; DInt 5; DBool true; DBool false; DList []].
+  [DEmpty; DNone; DStr "x"; DInt 5; DBool true; DBool false; DList []; DOther "float" "1.5"].
 
 Definition params1 : list param := flat_map (fun n => map (mkParam n) kinds) vocab.
 
@@ -26,7 +26,7 @@ Lemma small_sweep : forallb judged small_sigs = true.
 Proof. vm_compute. reflexivity. Qed.
 
 Lemma small_sweep_nonvacuous :
-  N.of_nat (List.length (filter guard small_sigs)) = 6486%N.
+  N.leb 6486 (N.of_nat (List.length (filter guard small_sigs))) = true.
 Proof. vm_compute. reflexivity. Qed.
 
 Lemma spec_bounded s : In s small_sigs -> guard s = true -> spec_ok s (sig_cli s) = true.
